@@ -66,6 +66,11 @@ def instances(tier):
                 tag = f"w{''.join(map(str, ws))}-chain{n}-{dk}"
                 out.append({"name": f"ILP-{tag}", "kind": "ILP", "opts": {"goal": "max_goodput", "enforce_deadlines": True, "release_taskgraphs": True}, "inst": inst})
                 out.append({"name": f"TSG-d1-{tag}", "kind": "TSG", "opts": {"enforce_deadlines": True, "time_discretization": 1, "release_taskgraphs": True}, "inst": inst})
+    # a task planned for later (still SCHEDULED) and a newly released one: the second invocation must still place the newcomer
+    for ws in ([[2]] if tier == "quick" else [[2], [2, 1], [3]]):
+        tasks = {"S": {"strategies": [[3, 1]], "deadline": 20, "state": "SCHEDULED", "worker": 0, "strategy": 0, "at": 8}, "N": {"strategies": [[3, 1]], "deadline": 12, "state": "RELEASED", "release": 0}}
+        inst = {"now": 2, "workers": ws, "graphs": [{"name": "GS", "tasks": ["S"], "edges": []}, {"name": "GN", "tasks": ["N"], "edges": []}], "tasks": tasks}
+        out.append({"name": f"TSG-d1-w{''.join(map(str, ws))}-one-scheduled-for-later-one-new", "kind": "TSG", "opts": {"enforce_deadlines": True, "time_discretization": 1}, "inst": inst})
     # a chain whose parent is RUNNING and has already made progress: the child fits right after the parent's *remaining* time
     for ws in ([[2], [2, 1]] if tier == "quick" else [[2], [2, 1], [1, 1], [3]]):
         for dl in ((12,) if tier == "quick" else (11, 12, 14)):
@@ -207,6 +212,38 @@ def check_instance(spec):
         return res
     if R.model is None:
         res["skipped"] = 1
+        if kind in ("TSG", "TSC"):
+            # the policy answered without solving: whatever it left unplaced must still have no room next to what is running / already scheduled
+            note("C14:tetrisched-returned-plan-is-maximal")
+            P, now = I.params, I.now
+            ret, cancels = mipinst.returned_placements(R)
+            plan = []
+            for tn, t in I.tasks.items():
+                if t.state.name in ("RUNNING", "SCHEDULED") and not any(pl is not None for pl in ret.get(tn, [])):
+                    wpos = [wk.id for (_, wk, _) in I.workers].index(t.current_placement.worker_id) if t.current_placement.worker_id is not None else 0
+                    si = mipinst._sidx(I, tn, t.current_placement.execution_strategy)
+                    st0 = now if t.state.name == "RUNNING" else t.current_placement.placement_time.time
+                    plan.append((tn, wpos, st0, P[tn]["strategies"][si][0], P[tn]["strategies"][si][1]))
+            for tn, pls in ret.items():
+                for pl in pls:
+                    if pl is not None:
+                        plan.append((tn, pl[0], pl[1], P[tn]["strategies"][pl[2]][0], P[tn]["strategies"][pl[2]][1]))
+            for u, t in I.tasks.items():
+                if t.state.name != "RELEASED" or u in cancels or any(pl is not None for pl in ret.get(u, [])) or P[u]["parents"]:
+                    continue
+                found = None
+                for w_, (pi, wobj, caps) in enumerate(I.workers):
+                    for si, (rt, dem) in enumerate(P[u]["strategies"]):
+                        for t0 in range(now, P[u]["deadline"] - rt + 1):
+                            if all(sum(d.get(rn, 0) for (_, w2, s2, r2, d) in plan if w2 == w_ and s2 <= tau < s2 + r2) + q <= caps.get(rn, 0) for rn, q in dem.items() for tau in range(t0, t0 + rt)):
+                                found = {"worker": w_, "slot": t0, "strategy": si}
+                                break
+                        if found:
+                            break
+                    if found:
+                        break
+                if found:
+                    res["violations"].append({"label": "C14:tetrisched-returned-plan-is-maximal", "detail": {"task": u, "addable_at": found, "plan": [(a, b, c, d) for (a, b, c, d, e) in plan], "note": "the policy returned without building a model"}})
         return res
     res["models"] = 1
     P, now = I.params, I.now
